@@ -24,7 +24,7 @@ def gen_cases(tier, seed, salt):
         st = structs[int(sub.integers(len(structs)))]
         spec = S.gen_spec(sub, structure=st, fams=["weibull", "lognormal", "lnnf", "expweib", "gengamma", "normal"], allow_hostile=True)
         alpha = float(10 ** sub.uniform(-6, math.log10(0.3)))
-        mode = str(sub.choice(["explicit", "explicit", "explicit", "too-small", "default-limits" if not three else "explicit", "bimodal" if not three else "explicit", "near-miss" if not three else "too-small", "near-miss" if not three else "explicit", "modes-side-by-side" if not three else "explicit", "four-modes" if not three else "explicit", "tiny-second-region" if not three else "explicit", "default-limits-mass-below-zero" if not three else "explicit", "warning-sequence" if not three else "too-small", "oblique-ridge" if not three else "explicit"]))
+        mode = str(sub.choice(["explicit", "explicit", "explicit", "too-small", "default-limits" if not three else "explicit", "bimodal" if not three else "explicit", "near-miss" if not three else "too-small", "near-miss" if not three else "explicit", "modes-side-by-side" if not three else "explicit", "four-modes" if not three else "explicit", "tiny-second-region" if not three else "explicit", "default-limits-mass-below-zero" if not three else "explicit", "warning-sequence" if not three else "too-small", "oblique-ridge" if not three else "explicit", "few-cells"]))
         if mode == "near-miss":
             # the grid misses (or exceeds) 1-alpha by a small multiple of alpha: the warning rule at its edge
             alpha = float(10 ** sub.uniform(-6, -2.5))
@@ -172,7 +172,13 @@ def run(case, ctx, which):
         kw["deltas"] = [d0, float(hi1) / n1]
         ctx.cls("shortfall/alpha", u)
     elif case["mode"] not in ("default-limits", "default-limits-mass-below-zero"):
-        if case["mode"] == "oblique-ridge":
+        if case["mode"] == "few-cells":
+            # ten cells per axis over a range several times the bulk: the region consists of a handful of cells
+            m_ = float(rng.choice([3.0, 5.0, 8.0]))
+            lims = [(0.0, float(ref.dim_range(i_, eps=1e-3)[1]) * m_) for i_ in range(d)]
+            case = {**case, "ncell": [10] * d, "delta_form": "list"}
+            alpha = 0.3
+        elif case["mode"] == "oblique-ridge":
             lims = [(-2.0, 12.0), (-3.0, 18.0)]
             sg_ = spec["dims"][1]["params"]["sigma"]
             case = {**case, "ncell": [int(14.0 / (sg_ * float(rng.uniform(0.8, 1.6)))), int(21.0 / (sg_ * float(rng.uniform(0.8, 1.6))))], "delta_form": "list"}
@@ -228,6 +234,32 @@ def run(case, ctx, which):
         _c02(ctx, spec, alpha, con, o, cell_prob, centres, deltas_used, warned, info)
     else:
         _c15(ctx, con, o, centres, warned, info, d)
+    if case["mode"] == "few-cells":
+        # second pass: the alphas (within the documented range) at which the region has exactly 1, 2, 3, 4, 5 cells
+        P = np.sort(np.asarray(cell_prob, float).ravel())[::-1]
+        for k_ in (1, 2, 3, 4, 5):
+            if P[k_] >= P[k_ - 1] or P[k_] <= 0:
+                continue
+            a2 = 1.0 - (float(np.sum(P[:k_])) + 0.5 * float(P[k_]))
+            if not (1e-6 < a2 <= 0.3):
+                continue
+            hdcmon.reset()
+            hdcmon.JUDGE_SORTER[0] = which == "C15"
+            with warnings.catch_warnings(record=True) as rec2:
+                warnings.simplefilter("always")
+                con2 = HighestDensityContour(model, a2, **kw)
+            warned2 = any(issubclass(w.category, RuntimeWarning) and "1-alpha could not be reached" in str(w.message) for w in rec2)
+            o2 = hdcmon.OBS.get("cumsum", [None])[-1]
+            if o2 is None:
+                ctx.inconcl("cumsum_biggest_until was not observed in the second pass")
+                return
+            centres2 = [np.asarray(c_, float) for c_ in con2.cell_center_coordinates]
+            info2 = {"alpha": a2, "grid": [int(c_.size) for c_ in centres2], "mode": f"region of {k_} cell(s)", "spec": spec}
+            ctx.count(f"hdc.region-of-{k_}-cells")
+            if which == "C02":
+                _c02(ctx, spec, a2, con2, o2, o2["cell_prob"], centres2, deltas_used, warned2, info2)
+            else:
+                _c15(ctx, con2, o2, centres2, warned2, info2, d)
     if case["mode"] == "tiny-second-region":
         # second pass: the alpha at which the region consists of the strong mode plus the k densest cells of the weak one
         P = np.asarray(cell_prob, float)
